@@ -21,10 +21,13 @@ import numpy as np
 from harness.common import enc, Z, B, kids, tag, to_zs, is_err, err_code
 
 PROP = 'C14'
-GENERATORS = []
+GENERATORS = ['gen_datamut']
 TRUSTED = [
-    'hand model coq/C14/Model.v of BinaryComponentLink.compute, ComponentLink.compute, ParsedCommand.evaluate, the removal cascade and '
-    'update_id (with the two fix commits): tied by correspondence only',
+    'hand model coq/C14/Model.v of BinaryComponentLink.compute, ComponentLink.compute, ParsedCommand.evaluate and update_id (with the two '
+    'fix commits): tied by correspondence only',
+    'the removal cascade (Data.remove_component + _removed_derived_that_depend_on) is regenerated from data.py by tools/gen/gen_datamut.py '
+    '(coq/gen/Gen_datamut.v) and proved equal to the model (coq/C14/GenEquiv.v); trusted there: the translator, its prelude, the instance '
+    'env14 (link.get_from_ids() = leaves of the defining expression); the generated update_id / reorder_components run against the code only',
     'numpy arithmetic, indexing and stride bookkeeping are the platform; the model keeps per axis a length and a stride-0 flag',
     'ParsedCommand (regular expression + eval) and user functions are arbitrary Python: exercised by correspondence and oracle only',
     'floating point: only elements whose exact rational evaluation is representable at every intermediate step are compared (dyadic inputs make that almost all)',
@@ -533,7 +536,10 @@ class Runner(object):
             target = op[1]
             exp_removed = W.closure(target) if target in before else set()
             if target in W.objs:
-                d.remove_component(W.objs[target])
+                try:
+                    d.remove_component(W.objs[target])
+                except Exception as e:      # removing an existing attribute must not fail (a half-done cascade is a violation)
+                    r['oracle'].append('remove_component(%d) raised %s' % (target, type(e).__name__))
             after = W.order()
             want = [x for x in before if x not in exp_removed]
             if after != want:
@@ -736,7 +742,7 @@ def check_all_values(W, when):
     return fails
 
 
-def enc_case(case, W):
+def enc_case(case, W, tag_=1):
     ops = []
     for op in case['ops']:
         if op[0] == 'add':
@@ -751,13 +757,19 @@ def enc_case(case, W):
             ops.append((6, [Z(op[1])]))
         else:
             ops.append((4, [op[1], (0, [(1, [e[1][0]]) if e[0] == 1 else (0, e[1]) for e in op[3]])]))
-    return enc((1, [Z(case['spec']['shape']), (0, [(0, [n, c]) for n, c in W.model_comps]), (0, ops)]))
+    return enc((tag_, [Z(case['spec']['shape']), (0, [(0, [n, c]) for n, c in W.model_comps]), (0, ops)]))
+
+
+GEN_OPS = ('remove', 'updid', 'reorder')
+GEN_STATS = {'cases': 0, 'ops': 0}
 
 
 def evaluate(R, cases, stream, done=None):
     """run the cases on implementation, oracle and model; returns failures [(case, kind, detail)]"""
     fails = []
     lines = []
+    glines = []
+    gidx = []
     reals = []
     for j, case in enumerate(cases):
         W, res = done[j] if done is not None else run_case_real(case)
@@ -789,7 +801,30 @@ def evaluate(R, cases, stream, done=None):
                 mops.append(op)
         reals.append((W, res, ok_model))
         lines.append(enc_case({'spec': case['spec'], 'ops': mops if ok_model else []}, W))
+        # the same case through the code generated from data.py (tag 2), when it has a structural mutation
+        if ok_model and any(op[0] in GEN_OPS for op in case['ops']):
+            glines.append(enc_case({'spec': case['spec'], 'ops': mops}, W, tag_=2))
+            gidx.append(j)
     outs = R.model(lines)
+    gouts = R.model(glines) if glines else []
+    GEN_STATS['cases'] += len(glines)
+    for j, go in zip(gidx, gouts):
+        case, (W, res, ok_model) = cases[j], reals[j]
+        if is_err(go) or len(kids(go)) != len(res):
+            fails.append((case, 'correspondence', {'generated': True, 'model': 'wire error / wrong length from the generated code'}))
+            continue
+        for i, (op, r, mt) in enumerate(zip(case['ops'], res, kids(go))):
+            if op[0] in ('add', 'remove', 'updid', 'redef', 'reorder', 'alias', 'addto'):
+                if op[0] in GEN_OPS:
+                    GEN_STATS['ops'] += 1
+                if is_err(mt):
+                    fails.append((case, 'correspondence', {'step': i, 'op': op, 'generated': True, 'model': 'error %r' % err_code(mt), 'impl': r['structure']}))
+                    break
+                ms = [(kids(x)[0][0], sorted(set(to_zs(kids(x)[1])))) for x in kids(kids(mt)[0])]
+                if ms != [(a, b) for a, b in r['structure']]:
+                    fails.append((case, 'correspondence', {'step': i, 'op': op, 'field': 'structure (generated code)', 'generated': True,
+                                                           'model': ms, 'impl': r['structure']}))
+                    break
     for case, (W, res, ok_model), o in zip(cases, reals, outs):
         nq = sum(1 for op in case['ops'] if op[0] == 'query')
         ncmp = sum(r.get('compared', 0) for r in res)
@@ -1534,6 +1569,10 @@ def run(R):
     stream_exhaustive(R)
     stream_random(R)
     stream_fancy(R)
+    R.stream('generated-code', cases=GEN_STATS['cases'], exhaustive=True, structural_ops=GEN_STATS['ops'],
+             bound='every case of the streams above that has a remove_component / update_id / reorder_components step, re-run with these '
+                   'three taken from coq/gen/Gen_datamut.v (translated from data.py) instead of the hand-written model; structure compared '
+                   'with the implementation after every step')
 
 
 def replay(R, case):
